@@ -217,6 +217,16 @@ def run(ctx):
                             inputs.append(QueryInput(lab))               # no source file (as with -s)
                     res = query(db, sigs, QueryParams(classify_strict=strict, report_closest=nclose, chunksize=[1000, 2, None][nclose % 3]), inputs=inputs)
                     res.extra = dict(note='é ✓', n=[1, 2, {'k': None}]) if names == 'fancy' else {}
+                    # header fields take values a run can legitimately have (not only "now"): whole seconds, time zones, far dates, long versions
+                    from datetime import datetime, timezone, timedelta
+                    stamps = [None, datetime(2021, 8, 18, 12, 0, 0), datetime(2021, 8, 18, 12, 0, 0, tzinfo=timezone.utc), datetime(1999, 12, 31, 23, 59, 59, 1),
+                              datetime(2030, 2, 28, 0, 0, tzinfo=timezone(timedelta(hours=-9, minutes=-30))), datetime.fromtimestamp(1600000000), datetime(1, 1, 1), datetime(9999, 12, 31, 23, 59, 59, 999999),
+                              datetime(2024, 2, 29, 6, 7, 8, 120000)]
+                    st = stamps[(3 * strict + [1, 3, 20].index(nclose) + 6 * wi) % len(stamps)]
+                    if st is not None:
+                        res.timestamp = st
+                    if nclose == 3:
+                        res.gambit_version = ['1.0.0', '1.1.0.dev0+g1234abc.d20240101', 'ü "v", 2\n'][wi % 3]
                     recs += export_all(res, db.session)
             # results carrying SEVERAL warnings (strict classification of crafted distance vectors: inconsistent matches AND a primary
             # match that is not the closest genome), found by a seeded search over vectors of multiples of 1/16
@@ -287,7 +297,7 @@ def run(ctx):
         ctx.add_samples([dict(family='exports', op='csv', text=''.join(map(chr, recs[0]['text']))[:600])], limit=1)
         ctx.rule_parts.append('[exports] real query results on two synthetic databases (taxon names, genome descriptions and labels with commas, quotes, '
                               'LF, CRLF, tabs, non-ASCII; no prediction, unreportable predicted taxon with and without a reportable ancestor, distance exactly 0, failed strict result '
-                              'with warnings, inputs without source file, integer ids) x strict/non-strict x list lengths, exported by the three '
+                              'with warnings, inputs without source file, integer ids; run time stamps on whole seconds, with time zones, at the ends of the calendar; odd version strings) x strict/non-strict x list lengths, exported by the three '
                               'exporters (plain and pretty) and by `gambit query -f csv|json|archive` (files and -s): the raw CSV is parsed by '
                               'TLC and by Python\'s csv and compared column by column with the result items; JSON is parsed strictly and compared '
                               'field by field; the archive is read back against the same session and compared for == and field by field')
